@@ -70,11 +70,11 @@ def rule_hash(ctx, rep):
     # ordered containers keyed by position: also flag BTreeMap/sort? no - those are deterministic.
 
 
-def rule_types(ctx, rep):
+def rule_types(ctx, rep, rid="R-C06-fileid"):
     """containers that hold the compilation set must be insertion/sorted-ordered or only be accessed by key"""
-    r = rep.rule("R-C06-fileid", "the key of the file table identifies a file structurally: FileId's PartialEq/Eq/Hash are the derived "
-                                 "(field-wise) ones, so two different paths never collide and equal paths always do", floor=2)
-    for tr in ("core::cmp::PartialEq", "core::hash::Hash"):
+    r = rep.rule(rid, "the key of the file table identifies a file structurally: FileId's PartialEq/Eq/Hash/Ord are the derived "
+                                 "(field-wise) ones, so two different paths never collide and equal paths always do", floor=3)
+    for tr in ("core::cmp::PartialEq", "core::hash::Hash", "core::cmp::Ord"):
         impl = [b for b in ctx.prog.bodies.values() if (b.f.get("impl") or {}).get("self") == "ironplc_dsl::core::FileId"
                 and (b.f.get("impl") or {}).get("trait_def") == tr]
         inst = "FileId|" + tr.split("::")[-1]
@@ -85,11 +85,11 @@ def rule_types(ctx, rep):
         derived = False
         for c in b.calls():
             m = loc_macro(c.loc)
-            if m and m[0] in ("Derive:PartialEq", "Derive:Hash"):
+            if m and m[0] in ("Derive:PartialEq", "Derive:Hash", "Derive:Ord"):
                 derived = True
         for i, j, s in b.all_stmts():
             m = loc_macro(s[3])
-            if m and m[0] in ("Derive:PartialEq", "Derive:Hash"):
+            if m and m[0] in ("Derive:PartialEq", "Derive:Hash", "Derive:Ord"):
                 derived = True
         if derived and b.f.get("exp"):
             r.ok(inst, "%s:%d" % (b.f["file"], b.f["line"]), "derived")
